@@ -100,10 +100,25 @@ func (e mdEntityX) toks() []string {
 	return t
 }
 
+// validity stamps of registered metadata, in rotation (none, lapsed on the entity, lapsed on the role descriptor, still valid):
+// what a provider advertises — its endpoints, its encryption key — is what is registered, whatever the stamps say
+var realN int
+
 func (e mdEntityX) real() *saml.EntityDescriptor {
 	ed := &saml.EntityDescriptor{EntityID: e.EntityID}
+	realN++
+	switch realN % 4 {
+	case 1:
+		ed.ValidUntil = baseTime.Add(-time.Hour)
+	case 3:
+		ed.ValidUntil = baseTime.Add(48 * time.Hour)
+	}
 	for _, d := range e.Descs {
 		var sd saml.SPSSODescriptor
+		if realN%4 == 2 {
+			t := baseTime.Add(-72 * time.Hour)
+			sd.ValidUntil = &t
+		}
 		for _, a := range d.ACS {
 			sd.AssertionConsumerServices = append(sd.AssertionConsumerServices, saml.IndexedEndpoint{Binding: a.Binding, Location: a.Location, Index: a.Index, IsDefault: a.IsDefault, ResponseLocation: a.Resp})
 		}
